@@ -287,6 +287,33 @@ func RunStream(c *Ctx, cfg StreamCfg, handle func(w *Worker, sc StrCase, res *[s
 			neighbourhood(anc[i], func(t, op string) { do(w, StrCase{t, vi, op}) })
 		})
 	}
+	// COMPLETE: every pair of bytes in the two version-digit positions of "CVSS:a.b/" (65,536 headers), and every byte
+	// in the separator position, in front of a valid body of each headed version: a version compared as a number
+	// ((a-'0')*10 + b-'0') or through a table accepts pairs that are not digits at all
+	if cfg.Cover {
+		for vi, v := range spec.Versions {
+			vi, v := vi, v
+			if v.Header == "" {
+				continue
+			}
+			_, el := gen.SplitElems(v, v.Canonical(v.ZeroAssign()))
+			body := strings.Join(el, "/")
+			c.Parallel("header-digit-pairs-"+v.Name, 256, 1, func(w *Worker, x int) {
+				h := []byte(v.Header) // "CVSS:3.1/"
+				for y := 0; y < 256; y++ {
+					h[5], h[7] = byte(x), byte(y)
+					do(w, StrCase{string(h) + body, vi, "header-digit-pair"})
+				}
+				h = []byte(v.Header)
+				h[6] = byte(x)
+				do(w, StrCase{string(h) + body, vi, "header-separator-byte"})
+				for _, d := range []byte("0123456789") {
+					h[7] = d
+					do(w, StrCase{string(h) + body, vi, "header-separator-byte"})
+				}
+			})
+		}
+	}
 	// header variants x bodies
 	for vi, v := range spec.Versions {
 		vi, v := vi, v
